@@ -754,8 +754,30 @@ func (n *ReconcileNode) addIP(ctx context.Context, unSucceedPods map[string]*Pod
 	// before create eni , we need to check the quota
 	options := getEniOptions(node)
 
+	// the idle ip on an erdma eni serves no normal pod, but it is part of the pool adjustPool keeps within
+	// MaxPoolSize. Keeping MinPoolSize on the other enis on top of it makes adjustPool release the surplus
+	// and the next reconcile add it back, forever.
+	minPool := node.Spec.Pool.MinPoolSize
+	if node.Spec.ENISpec.EnableERDMA {
+		for _, eni := range node.Status.NetworkInterfaces {
+			if eni.Status != aliyunClient.ENIStatusInUse ||
+				eni.NetworkInterfaceTrafficMode != networkv1beta1.NetworkInterfaceTrafficModeHighPerformance {
+				continue
+			}
+			switch {
+			case node.Spec.ENISpec.EnableIPv4 && node.Spec.ENISpec.EnableIPv6:
+				minPool -= min(IdlesWithAvailable(eni.IPv4), IdlesWithAvailable(eni.IPv6))
+			case node.Spec.ENISpec.EnableIPv4:
+				minPool -= IdlesWithAvailable(eni.IPv4)
+			default:
+				minPool -= IdlesWithAvailable(eni.IPv6)
+			}
+		}
+		minPool = max(minPool, 0)
+	}
+
 	// handle trunk/secondary eni
-	assignEniWithOptions(ctx, node, len(normalPods)+node.Spec.Pool.MinPoolSize, options, func(option *eniOptions) bool {
+	assignEniWithOptions(ctx, node, len(normalPods)+minPool, options, func(option *eniOptions) bool {
 		return n.validateENI(ctx, option, []eniTypeKey{secondaryKey, trunkKey})
 	})
 	assignEniWithOptions(ctx, node, len(rdmaPods), options, func(option *eniOptions) bool {
